@@ -83,6 +83,7 @@ package packet
 //@   ensures [shorttag] len(old(p.data)) >= 14 && len(old(p.data)) < 18 && old(p.data)[12]*256 + old(p.data)[13] == 33024 ==> err != nil
 //@   ensures p.L3 == old(p.L3) && p.L4 == old(p.L4)
 //@   modifies p.L2, p.data
+//@   opt unreachable cover.ret.2 cover.ret.4   // decodeIEEE802 cannot fail here: the length was checked just before
 
 //@ func (*Packet).decodeEthernetHeader
 //@   ensures err == nil ==> (p.L2.EtherType == 2048 && isboxed(p.L3, IPv4Header)) || (p.L2.EtherType == 34525 && isboxed(p.L3, IPv6Header))
